@@ -28,7 +28,7 @@ ITEM_TIME_LIMIT = 300       # seconds of wall clock for all executions on one te
 # ---------------------------------------------------------------- term sources
 def term_source(pid: str, tier: str):
     """[(family, term)] for a property and tier."""
-    out = [("ENUM", t) for t in F.enum_terms(tier)]
+    out = [("ENUM", t) for t in F.enum_terms(tier, size5=pid in ("C01", "C02", "C03"))]
     out += [("SKEL", t) for t in F.skel_terms(tier)]
     out += [("NARY", t) for t in F.nary_terms(tier)]
     out += [("PARAM", t) for t in F.param_terms(tier)]
